@@ -160,6 +160,44 @@ def check(rep, F, tier, replay=None):
         do = ff.args_of(_origins_any(org, d[0][4]))
         if not ao or ao != do:
             rep.violation("FT-aux", "%s|different-source" % key, "%s: auxiliary_bytes and auxiliary_data are computed from different arguments (%s vs %s)" % (key, sorted(ao), sorted(do)), {"function": fid})
+    # SET-total: a raw-bytes setter stores what it was given on every success path
+    from collections import deque as _dq
+    import mustpass as _mp
+    rep.rule("SET-total", "every FixedTransaction setter that takes raw bytes (set_body, set_witness_set, set_auxiliary_data) stores the bytes field on every path to its success return: no early return on `decoded value == current value` - two encodings of an equal value are different bytes and different hashes")
+    n_set = 0
+    for nm_, fld_ in (("set_body", "body_bytes"), ("set_auxiliary_data", "auxiliary_bytes"), ("set_witness_set", "witness_set")):
+        fid_ = fn1(rep, F, "FixedTransaction::" + nm_)
+        if not fid_:
+            continue
+        fn_ = F.fns[fid_]
+        ffs_ = ff.FnFields(F, fid_)
+        st_ = {s_[2] for s_ in ffs_.stores_to(FT, fld_)}
+        if not st_:
+            rep.lost("FixedTransaction::%s no longer stores %s" % (nm_, fld_))
+            continue
+        n_set += 1
+        rep.inst("SET-total")
+        succ_ = {i_: [x_ for x_ in _mp._succs(fn_, i_) if x_ is not None and not fn_["bbs"][x_]["c"]] for i_ in range(len(fn_["bbs"])) if not fn_["bbs"][i_]["c"]}
+        oks_ = {bi for bi, kind, loc in _mp.success_stores(F, fid_) if kind == "ok"}
+        if not oks_:
+            # a setter returning () : every return counts
+            oks_ = {i_ for i_ in succ_ if fn_["bbs"][i_]["t"][1] == "ret"}
+        dq, seen_ = _dq([0]), {0}
+        bad = False
+        while dq:
+            x_ = dq.popleft()
+            if x_ in st_:
+                continue
+            if x_ in oks_:
+                bad = True
+                break
+            for y_ in succ_.get(x_, []):
+                if y_ not in seen_:
+                    seen_.add(y_)
+                    dq.append(y_)
+        if bad:
+            rep.violation("SET-total", "FixedTransaction::%s" % nm_, "FixedTransaction::%s can return Ok without storing %s: given another encoding of an equal value (tag 258 added or dropped, an indefinite length, a wider integer head) it keeps the old bytes and the old hash, and signatures added afterwards sign the old hash" % (nm_, fld_), {})
+    rep.floor("raw-bytes setters of FixedTransaction", 3, n_set)
     # (2) readers of the hash
     rep.rule("FT-hash-read", "transaction_hash() returns the tx_hash field; sign_and_add_* pass that field to the witness constructor")
     fid = fn1(rep, F, "FixedTransaction::transaction_hash")
